@@ -66,7 +66,56 @@ def run(ctx):
     for e in dups:
         guarded(ctx, 'C20.W1', st, e, lambda a: mentions_field(a, 'Subprocess::use_console_'), False,
                 'redirection applies to non-console children', construct='child:dup-under-console')
-    ctx.floor('C20.W1', 12)
+    # the stripper drops nothing but escape sequences: it walks the whole input in constant steps,
+    # copies every byte that is not ESC, and leaves the loop early only when ESC is the last byte
+    sa = prog.fn('StripAnsiEscapeCodes')
+    inp = sa.params[0]['n']
+    hdrs = [(bid, b) for bid, b in sa.blocks.items() if b.get('term') and b['term']['kind'] in ('for', 'while') and
+            len(b['succ']) == 2 and '%s.size()' % inp in dstr(b['term'].get('cond')).replace('std::basic_string<char>::', '')]
+    outer = [(bid, b) for bid, b in hdrs if b['term']['kind'] == 'for']
+    ctx.check('C20.W1', len(outer) == 1, sa.name, 'strip:outer-loop', sa.loc, 'one loop over the whole input (i < in.size())')
+    for bid, b in outer:
+        body, after = b['succ'][0], b['succ'][1]
+        def only_at_end(bb, i, s2):
+            if bb == bid:
+                return False            # the regular exit through the loop condition
+            for k, pol, atom in sa.edge_facts(bb, i):
+                kk = k.replace(' ', '').replace('std::basic_string<char>::', '')
+                if pol is True and ('(i+1)>=%s.size()' % inp in kk or '(i+1)<%s.size()' % inp in kk and False):
+                    return False
+                if pol is False and '(i+1)<%s.size()' % inp in kk:
+                    return False
+            return True
+        first_after = (sa.blocks[after]['ev'] or [None])[0]
+        r = sa.find_path(None, lambda x: x is first_after, from_succ=body, edge_ok=only_at_end, sensitive=False) \
+            if first_after is not None else None
+        ctx.check('C20.W1', r is None, sa.name, 'strip:early-exit', sa.loc,
+                  'the loop is left early only when ESC is the last byte of the output (nothing after it can be lost)',
+                  witness=None if r is None else {'blocks': r[0]})
+    steps = [e for e in sa.events('asg') if is_var('i')(e['l'])]
+    ctx.check('C20.W1', steps and all(e['op'] == '++' or (e['op'] == '+=' and const_value(e.get('r')) is not None) for e in steps),
+              sa.name, 'strip:jump', sa.loc, 'the scan position only advances in constant steps: %s' % [e.get('src', e['op']) for e in steps])
+    pb = [e for e in sa.events('call') if lastname(e.get('name')) == 'push_back']
+    ctx.check('C20.W1', len(pb) == 1, sa.name, 'strip:copy-sites', sa.loc, 'one copy site')
+    ncopy = 0
+    for e in pb:
+        for bb, blk in sa.blocks.items():
+            for i, s2 in enumerate(blk['succ']):
+                if s2 is None:
+                    continue
+                for k, pol, atom in sa.edge_facts(bb, i):
+                    a = strip(atom)
+                    if not (isinstance(a, dict) and a.get('k') == 'bin' and a['op'] in ('==', '!=') and const_value(a['r']) == 27):
+                        continue
+                    if (pol is True) == (a['op'] == '=='):
+                        continue            # the ESC side
+                    ncopy += 1
+                    r = sa.find_path(None, lambda x: x.get('_b') == outer[0][0] or x['k'] in ('exit', 'ret'), from_succ=s2,
+                                     is_blocker=lambda x: x is e, sensitive=False)
+                    ctx.check('C20.W1', r is None, sa.name, 'strip:byte-dropped', sa.where(e), 'a byte that is not ESC is copied',
+                              witness=None if r is None else {'blocks': r[0]})
+    ctx.check('C20.W1', ncopy >= 1, sa.name, 'strip:esc-test', sa.loc, 'the ESC test was found (%d edges)' % ncopy)
+    ctx.floor('C20.W1', 17)
 
     # ---- O1: failure header order ------------------------------------------------------------------
     R('C20.O1', 'O', 'for a failed command the FAILED line (outputs, exit code) and the full command '
@@ -195,9 +244,20 @@ def run(ctx):
         ctx.check('C20.R2', isinstance(a, dict) and a.get('k') == 'mem' and a['n'] == 'LinePrinter::output_buffer_', scl.name,
                   'unlock:buffer-truncated', scl.where(e), 'the buffer is handed over as a std::string (no c_str() truncation at NUL): %s' % dstr(a))
         guarded(ctx, 'C20.R2', scl, e, is_var('locked'), False, 'the flush happens on unlock', construct='unlock:flush-guard')
+    # shown exactly once: whatever is flushed on unlock is cleared before SetConsoleLocked returns
+    for fld, printer in (('LinePrinter::output_buffer_', 'LinePrinter::PrintOnNewLine'), ('LinePrinter::line_buffer_', 'LinePrinter::Print')):
+        for e in scl.calls(printer):
+            if not mentions_field(e.get('args'), fld):
+                continue
+            r = scl.find_path(e, lambda x: x['k'] in ('exit', 'ret'),
+                              is_blocker=lambda x, fld=fld: x['k'] == 'call' and lastname(x.get('name')) == 'clear' and
+                              mentions_field(x.get('recv'), fld))
+            ctx.check('C20.R2', r is None, scl.name, 'unlock:printed-not-cleared:%s' % fld.split('::')[1], scl.where(e),
+                      'after %s was printed on unlock every path clears it (it is not shown a second time)' % fld,
+                      witness=None if r is None else {'blocks': r[0]})
     pon = prog.fn('LinePrinter::PrintOnNewLine')
     for e in pon.calls('LinePrinter::PrintOrBuffer'):
         if mentions_var(e.get('args'), 'to_print'):
             ctx.check('C20.R2', 'to_print.size()' in dstr(e.get('args')), pon.name, 'PrintOnNewLine:length', pon.where(e),
                       'text is passed on with its full size()')
-    ctx.floor('C20.R2', 14)
+    ctx.floor('C20.R2', 16)
